@@ -1,6 +1,172 @@
-(* placeholder while the proofs are being written *)
-From Coq Require Import ZArith List.
-From ServerLoop Require Import ServerLoopSpec ServerLoopModel.
+(* Property C14 - "The event loop honours timers, removals, readiness and interrupts".
+
+   All theorems are about the executable model ServerLoopModel (Server::run, Socket::Poll (epoll variant), the
+   timer MultiMap, the pools, the closing set, interrupt), for ALL fuel values, ALL histories [ops] of top-level
+   operations, callback behaviours, scripted clocks, epoll results and send/recv/accept/SO_ERROR outcomes.  The
+   model is tied to the code by checks/C14.py (same histories through the extracted model and the real Server on
+   a simulated kernel; the extracted monitors of ServerLoopSpec judge the implementation's own log).
+   [trace s] is the log, newest event first:  trace = later ++ x :: earlier  means x happened after [earlier].
+
+   clause of the property statement                                   theorem
+   -----------------------------------------------------------------  ------------------------------------------------
+   (whole statement, as the four monitors of ServerLoopSpec)           model_log_accepted
+   a timer is activated once per interval, never before it is due,     timer_activation (the (n+1)-th activation since
+   in order of due time                                                creation at clock c is the one due at c+(n+1)*iv;
+                                                                       due <= sampled now; no live timer is due earlier)
+   after remove() returned the removed timer/client/listener/          no_callback_after_remove (also for the client
+   establisher never receives another callback (also from inside a     dropped by a null return of onAccepted/onConnected)
+   callback / with an event pending)                                   + buffered_events_within_interest, registered_objects_alive
+                                                                       (Poll::set/remove prune the buffered events)
+   every dispatched event kind is one the socket is registered for     dispatch_kind_registered, connect_dispatch_registered
+   a failed read or write is followed by onClosed                      failed_io_followed_by_onClosed, loop_send_failure_closes_at_once
+   interrupt() makes the current or next run() return ...              interrupted_wait_is_last  (+ run_returns_or_runs_out_of_fuel)
+   ... which never returns otherwise                                   run_returns_only_after_interrupt
+   every ready registered socket is eventually dispatched              eventual_dispatch_partial_buffered, eventual_dispatch_partial_head
+                                                                       (PARTIAL: see below)
+
+   PARTIAL / not proved here:
+   * eventual dispatch (liveness) is proved only up to the kernel: a reported registered socket enters the buffer
+     (eventual_dispatch_partial_buffered) and the buffer is served head first, one event per loop iteration, without
+     waiting (eventual_dispatch_partial_head).  Assumed: the (level-triggered) epoll keeps reporting a ready socket and
+     the event descriptor; at most 63 sockets per epoll_wait.  Not proved: that buffered entries only move towards the
+     head (they do: set/remove only delete or shrink entries), and termination of the timer and closing phases
+     (needs intervals > 0 and finite callback scripts) - in the model a non-terminating run ends as [stuck].
+   * "interrupt() makes the current or next run() return" is the safety half: once an interrupt is pending the next wait
+     of the loop is its last action before run() returns.  That the loop reaches that wait is the termination question above.
+   * equal due times: activations are in order of due time; that timers with EQUAL due times fire in insertion order is
+     validated by the correspondence check only.
+   * a client removed from inside the very onAccepted/onConnected that announces it, for which that callback nevertheless
+     returns a callback object, is kept alive by the code and later gets onClosed; the model mirrors this, the monitor
+     counts the returned object as a re-adoption (EvDeferred is not EvRemoved).  *)
+From Coq Require Import ZArith List Bool.
+From ServerLoop Require Import ServerLoopSpec ServerLoopModel ServerLoopInv ServerLoopCplC ServerLoopDerived.
 Import ListNotations.
-Example init_trace_accepted : accepts (trace init) = true.
-Proof. reflexivity. Qed.
+Local Open Scope Z_scope.
+
+Theorem model_log_accepted : forall fuel ops, accepts (trace (steps fuel init ops)) = true.
+Proof. exact model_accepted. Qed.
+Print Assumptions model_log_accepted.
+
+Theorem timer_activation : forall fuel ops later t due now earlier,
+  trace (steps fuel init ops) = later ++ EvAct t due now :: earlier ->
+  exists c iv n, tinfo t earlier = Some (c, iv, n) /\ due = c + (n + 1) * iv /\ due <= now /\
+    forall t' c' iv' n', tinfo t' earlier = Some (c', iv', n') -> due <= c' + (n' + 1) * iv'.
+Proof. exact model_timer_activation. Qed.
+Print Assumptions timer_activation.
+
+Theorem no_callback_after_remove : forall fuel ops later x earlier e,
+  trace (steps fuel init ops) = later ++ x :: earlier -> gone e x = true ->
+  forallb (fun y => negb (callback_for e y)) later = true.
+Proof. exact model_no_callback_after_remove. Qed.
+Print Assumptions no_callback_after_remove.
+
+Theorem buffered_events_within_interest : forall fuel ops e f,
+  alookup ent_eqb e (selected (steps fuel init ops)) = Some f ->
+  exists g, alookup ent_eqb e (socks (steps fuel init ops)) = Some g /\ fl_sub f g = true.
+Proof. exact model_buffered_within_interest. Qed.
+Print Assumptions buffered_events_within_interest.
+
+Theorem registered_objects_alive : forall fuel ops e g,
+  alookup ent_eqb e (socks (steps fuel init ops)) = Some g -> sock_ok (steps fuel init ops) e g.
+Proof. exact model_registered_alive. Qed.
+Print Assumptions registered_objects_alive.
+
+Theorem dispatch_kind_registered : forall fuel ops later x earlier e p,
+  trace (steps fuel init ops) = later ++ x :: earlier -> needs_reg x = Some (e, p) ->
+  exists mask, reg_of e earlier = Some mask /\ p mask = true.
+Proof. exact model_dispatch_registered. Qed.
+Print Assumptions dispatch_kind_registered.
+
+Theorem connect_dispatch_registered : forall fuel ops later i err earlier,
+  trace (steps fuel init ops) = later ++ EvSoErr i err :: earlier ->
+  exists mask rest, earlier = EvCtl CDel (Es i) mask :: rest /\ exists old, reg_of (Es i) rest = Some old /\ has_out old = true.
+Proof. exact model_connect_dispatch. Qed.
+Print Assumptions connect_dispatch_registered.
+
+Theorem failed_io_followed_by_onClosed : forall fuel ops l3 w l2 f l1 i,
+  trace (steps fuel init ops) = l3 ++ w :: l2 ++ f :: l1 -> fails i f = true -> ccheck w = true ->
+  existsb (settles i) l2 = true.
+Proof. exact model_failed_io_answered. Qed.
+Print Assumptions failed_io_followed_by_onClosed.
+
+Theorem loop_send_failure_closes_at_once : forall fuel ops later y i n r earlier,
+  trace (steps fuel init ops) = later ++ y :: EvSend i n r true :: earlier -> failed_io r = true ->
+  (exists o e mask, y = EvCtl o e mask) \/ (exists c, y = EvCb (Cl i) KClosed c).
+Proof. exact model_loop_send_failed. Qed.
+Print Assumptions loop_send_failure_closes_at_once.
+
+Theorem run_returns_only_after_interrupt : forall fuel ops later earlier,
+  trace (steps fuel init ops) = later ++ EvRunRet :: earlier -> pending_of earlier = true.
+Proof. exact model_ret_needs_interrupt. Qed.
+Print Assumptions run_returns_only_after_interrupt.
+
+Theorem interrupted_wait_is_last : forall fuel ops rest y q t earlier,
+  trace (steps fuel init ops) = rest ++ y :: q ++ EvWait t :: earlier -> pending_of earlier = true ->
+  forallb quiet q = true -> quiet y = false -> y = EvRunRet.
+Proof. exact model_interrupted_wait_is_last. Qed.
+Print Assumptions interrupted_wait_is_last.
+
+Theorem run_returns_or_runs_out_of_fuel : forall fuel items s,
+  stuck (run_loop fuel items s) = true \/ exists tr', trace (run_loop fuel items s) = EvRunRet :: tr'.
+Proof. exact run_returns_or_stuck. Qed.
+Print Assumptions run_returns_or_runs_out_of_fuel.
+
+Theorem eventual_dispatch_partial_buffered : forall e g r s,
+  alookup ent_eqb e (socks s) = Some g -> In e (map fst r) ->
+  exists n, In (e, n) r /\ alookup ent_eqb e (selected (absorb r s)) = Some (unmap_events n g).
+Proof. exact reported_socket_is_buffered_partial. Qed.
+Print Assumptions eventual_dispatch_partial_buffered.
+
+Theorem eventual_dispatch_partial_head : forall t items e f r s,
+  selected s = (e, f) :: r -> poll t items s = (set_selected r s, Some (e, f), items).
+Proof. exact buffered_head_is_delivered_partial. Qed.
+Print Assumptions eventual_dispatch_partial_head.
+
+Theorem structural_invariant_reachable : forall fuel ops, SInv (steps fuel init ops).
+Proof. exact SInv_reachable. Qed.
+Print Assumptions structural_invariant_reachable.
+
+(* ---------- non-vacuity: a concrete history whose log contains every kind of event the theorems speak about ---------- *)
+Definition nb (i o r h e : bool) := mkNb i o r h e.
+Definition demo : list op :=
+  [ OAct (ATimer 1 5); OAct (ATimer 2 5); OAct (ATimer 3 5); OAct (APair 1); OAct (APair 2); OAct (AListen 0); OAct (AConnect 0);
+    OOn (mkSe (Tm 1) SAct 0 false [ARmTimer 2; AWrite 1 5; AWrite 2 4]); OSendq [SSent 2; SWould; SErr];
+    OOn (mkSe (Cl 1) (SCb KRead) 0 false [ARead 1]); ORecvq [REof];
+    OOn (mkSe (Cl 1) (SCb KClosed) 0 false [ARmClient 1]);
+    OOn (mkSe (Cl 2) (SCb KClosed) 0 false [ARmClient 2]);
+    OOn (mkSe (Li 0) (SIn KAccepted) 5 true [AInterrupt]);
+    OOn (mkSe (Es 0) (SIn KConnected) 6 false [ARmEstab 0]);
+    ORun [ mkEp 5 [];
+           mkEp 0 [(Cl 2, nb false true false false false); (Cl 1, nb true true false false false);
+                   (Li 0, nb true false false false false); (Es 0, nb false true false false false)];
+           mkEp 0 [(Cl 1, nb true false false false false)]; mkEp 1 [] ];
+    OAct AInterrupt; ORun [mkEp 7 []] ].
+Definition demo_log := trace (steps 200 init demo).
+Definition has (p : ev -> bool) := existsb p demo_log.
+
+Example demo_not_stuck : stuck (steps 200 init demo) = false. Proof. vm_compute. reflexivity. Qed.
+Example demo_accepted : accepts demo_log = true. Proof. vm_compute. reflexivity. Qed.
+Example demo_has_activations : length (filter (fun x => match x with EvAct _ _ _ => true | _ => false end) demo_log) = 2%nat.
+Proof. vm_compute. reflexivity. Qed.
+Example demo_has_timer_removal : has (fun x => gone (Tm 2) x) = true. Proof. vm_compute. reflexivity. Qed.
+Example demo_has_client_removal : has (fun x => gone (Cl 1) x) = true /\ has (fun x => gone (Cl 6) x) = true /\ has (fun x => gone (Es 0) x) = true.
+Proof. vm_compute. auto. Qed.
+Example demo_has_dispatches :
+  has (fun x => match needs_reg x with Some (Cl _, _) => true | _ => false end) = true /\
+  has (fun x => match needs_reg x with Some (Li _, _) => true | _ => false end) = true /\
+  has (fun x => match x with EvSoErr _ _ => true | _ => false end) = true /\
+  has (fun x => match x with EvSend _ _ _ true => true | _ => false end) = true.
+Proof. vm_compute. auto. Qed.
+Example demo_has_failed_io : has (fails 1) = true /\ has (settles 1) = true /\ has ccheck = true.
+Proof. vm_compute. auto. Qed.
+Example demo_has_failed_loop_send : has (fun x => match x with EvSend 2 _ r true => failed_io r | _ => false end) = true.
+Proof. vm_compute. reflexivity. Qed.
+Example demo_has_returns : length (filter (fun x => match x with EvRunRet => true | _ => false end) demo_log) = 2%nat /\
+  has (fun x => match x with EvInterrupt _ => true | _ => false end) = true /\
+  has (fun x => match x with EvWait _ => true | _ => false end) = true.
+Proof. vm_compute. auto. Qed.
+Example demo_buffer_nonempty_midway :
+  selected (fst (epoll_wait 0 [mkEp 0 [(Cl 1, nb true false false false false); (Cl 2, nb true false false false false)]]
+                  (steps 10 init [OAct (APair 1); OAct (APair 2)]))) =
+  [(Cl 1, mkFl true false false false); (Cl 2, mkFl true false false false)].
+Proof. vm_compute. reflexivity. Qed.
